@@ -163,7 +163,7 @@ var c06Vocab = func() []jsVocab {
 	for _, p := range jsPunct {
 		add(p.s)
 	}
-	add("a", "$", "_1", "é", "a\u200cb", "ab", "\\u0062c", "\\u{62}c", "a\\u0062", "aé", "ifx", "xif", "a1", "#a", "#$", "#é", "#if",
+	add("a", "$", "_1", "é", "a\u200cb", "ab", "\\u0062c", "\\u{62}c", "a\\u0062", "aé", "ifx", "xif", "a1", "#a", "#$", "#é", "#if", "#\\u0061bc", "#\\u{61}", "#a\\u0062",
 		"0", "1", "12", "1.5", ".5", "1.", "1e3", "1E-3", "1e+3", "1.5e3", "0x1F", "0XaB", "0b1", "0B10", "0o7", "0O17", "1n", "0n", "0x1n", "0b1n", "0o7n", "1_000", "0.0_1", "1e1_0", "0x1_F", "1_0n", "0.5", "0e0",
 		"'a'", "\"a\"", "''", "'\\''", "\"\\\"\"", "'\\\\'", "'\\n\\x41\\u0041\\u{41}\\0'", "'a\\\nb'", "'a\\\r\nb'", "'a\\\rb'", "'a\\ b'", "'a b'", "\"a'b\"", "'a\"b'", "'\\\n'",
 		"`t`", "``", "`\\``", "`\\${`", "`$`", "`$a`", "`a\nb`", "`{`", "`}`", "`${a}`", "`a${b}c`", "`${a}${b}`", "`${`n`}`", "`a${`b${c}d`}e`", "`${{}}`", "`${'}'}`",
